@@ -651,7 +651,8 @@ class NoContentResponse(BaseResponse):
 
     def __start_response__(self, start_response: Callable):
         start_response(
-            "%d %s" % (self.status_code, self.reason), [])
+            "%d %s" % (self.status_code, self.reason),
+            list(self.headers.items()))
 
 
 class EmptyResponse(NoContentResponse):
